@@ -114,6 +114,10 @@ FIXED_TOKENS = [
     ['A', 'J', 'matmat', 'Jinv', 'matmat', 'tr', 'u', '*', 'v', '*'],
     ['gu', 'gv', 'outer', 'A', 'minner'],
     ['Hu', 'Hv', 'matmat', 'tr'],
+    ['tiny', 'u', '*', 'v', '*'],                                   # 2^-27 u v: not zero
+    ['u', 'v', '*', 'tiny', 'gu', 'gv', 'inner', '*', '+'],
+    ['near1', 'u', '*', 'v', '*', 'u', 'v', '*', '-'],              # (1 + 2^-18) u v - u v: not zero either
+    ['f', 'val', 'near1', '-', 'u', '*', 'v', '*'],
 ]
 
 
